@@ -626,7 +626,7 @@ func c03GenRefs(t *rapid.T, L int, counter string) []string {
 }
 
 func c03Gen(t *rapid.T) c03Case {
-	L := rapid.IntRange(1, 14).Draw(t, "L")
+	L := drawLen(t, 1, 14, "L")
 	c := c03Case{L: L, Op: rapid.SampledFrom([]string{"delete", "erase", "slice", "slice"}).Draw(t, "op")}
 	var hot []int
 	if c.Op == "slice" {
@@ -647,8 +647,8 @@ func c03Gen(t *rapid.T) c03Case {
 		c.I, c.N = i, n
 		hot = hotAround(L, i, n)
 	}
-	cfg := locCfg{L: L, Hot: hot, MaxDepth: 3, MaxParts: 4, Ambig: true, Sites: true}
-	c.Feats = genFeats(t, cfg, rapid.IntRange(0, 4).Draw(t, "nfeat"), "f", true)
+	cfg := locCfg{L: L, Hot: hot, MaxDepth: 3, MaxParts: scopeParts(4), Ambig: true, Sites: true}
+	c.Feats = genFeats(t, cfg, drawCount(t, 0, 4, 9, "nfeat"), "f", true)
 	if c.Op == "slice" {
 		if s, _, wrap := c.window(); wrap {
 			for k := range c.Feats {
@@ -670,6 +670,10 @@ func TestC03(t *testing.T) {
 	st := newStats("C03")
 	defer st.flush()
 	rapidPart(t, c03Prop, st, "rapid", pick(40000, 300000), c03Gen)
+	if t.Failed() {
+		return
+	}
+	rapidLargePart(t, c03Prop, st, pick(1500, 20000), c03Gen)
 	if t.Failed() {
 		return
 	}
